@@ -1637,6 +1637,14 @@ func c10FixedClock() []c10Case {
 	for b := 1; b <= 4; b++ {
 		out = append(out, c10Case{Flavour: []int{2, 0, 1, 3}[b-1], Base: b, Prefix: "p", Clock: clk, Ops: ops})
 	}
+	// a stopwatch whose start instant is exactly the zero time.Time: timer's first, histogram's first
+	zeroT := []c10Op{{Op: "timer", H: 0, Name: "t"}, {Op: "start", H: 0}, {Op: "stop", H: 0}, {Op: "stop", H: 0}, {Op: "pass"}}
+	zeroH := []c10Op{{Op: "hist", H: 0, Name: "h", Spec: []int64{1000000}}, {Op: "hstart", H: 0}, {Op: "timer", H: 0, Name: "t"},
+		{Op: "start", H: 0}, {Op: "stop", H: 1}, {Op: "stop", H: 0}, {Op: "pass"}}
+	for f := 0; f < 4; f++ {
+		out = append(out, c10Case{Flavour: f, Base: 1, Prefix: "p", Clock: []int64{0, 7, 2001000, 2002000}, Ops: zeroT},
+			c10Case{Flavour: f, Base: 1, Prefix: "p", Clock: []int64{0, 7, 2001000, 2002000}, Ops: zeroH})
+	}
 	refuse := []c10Op{
 		{Op: "sub", H: 0, Name: "s"},
 		{Op: "timerx", H: 1, Name: "once"},
@@ -1745,6 +1753,38 @@ func c10FixedClose() []c10Case {
 	var out []c10Case
 	for _, f := range []int{1, 3, 0, 2} {
 		out = append(out, c10Case{Flavour: f, Prefix: "p", Clock: []int64{100, 175}, Ops: ops})
+	}
+	// stale handles: a timer handle and a running stopwatch of a tagged scope outlive the scope (closed,
+	// then dropped by a report pass / by the root's Close); other timers are created elsewhere; a Record
+	// and the Stop through the old handle still carry the old timer's name and tags
+	stale := func(dropByRootClose bool) []c10Op {
+		o := []c10Op{
+			{Op: "tag", H: 0, Tags: map[B]B{"route": "a0"}},
+			{Op: "timer", H: 1, Name: "latency"},
+			{Op: "start", H: 0},
+			{Op: "rec", H: 0, D: 1},
+			{Op: "close", H: 1},
+		}
+		if dropByRootClose {
+			o = append(o, c10Op{Op: "sub", H: 0, Name: "db"}, c10Op{Op: "close", H: 0})
+		} else {
+			o = append(o, c10Op{Op: "pass"}, c10Op{Op: "sub", H: 0, Name: "db"})
+		}
+		return append(o,
+			c10Op{Op: "timer", H: 2, Name: "query0"},
+			c10Op{Op: "timer", H: 0, Name: "other"},
+			c10Op{Op: "rec", H: 1, D: 2},
+			c10Op{Op: "rec", H: 0, D: 3},
+			c10Op{Op: "stop", H: 0},
+			c10Op{Op: "rec", H: 2, D: 4},
+			c10Op{Op: "timer", H: 1, Name: "latency"},
+			c10Op{Op: "rec", H: 3, D: 5},
+			c10Op{Op: "rec", H: 0, D: 6},
+			c10Op{Op: "pass"})
+	}
+	for _, f := range []int{0, 1, 3} {
+		out = append(out, c10Case{Flavour: f, Prefix: "svc", Clock: []int64{100, 175}, Ops: stale(false)},
+			c10Case{Flavour: f, Prefix: "svc", Clock: []int64{100, 175}, Ops: stale(true)})
 	}
 	return out
 }
